@@ -955,6 +955,21 @@ static std::string op_util(const std::vector<std::string>& w)
         out += sb_rgbw_color_equals(o, o2) ? " same" : " diff";
         out += (sb_rgbw_color_equals(o3, sb_rgbw_color_make(c.red, c.green, c.blue, 0)) && sb_rgbw_color_almost_equals(o3, o3, 0)
                 && sb_rgb_color_equals(c, c) && sb_rgb_color_almost_equals(c, ref, 255)) ? " off-ok" : " off-bad";
+        // a converter with a history (the same temperature again after every other way of configuring it) converts
+        // like the fresh one
+        bool hist = true;
+        for (int h = 0; h < 4; h++) {
+            sb_rgbw_conversion_t cv;
+            memset(&cv, 0, sizeof cv);
+            sb_rgbw_conversion_use_color_temperature(&cv, t2);
+            if (h == 0) sb_rgbw_conversion_use_reference_color(&cv, sb_rgb_color_make(255, (uint8_t)(255 - c.green), c.blue));
+            else if (h == 1) sb_rgbw_conversion_use_fixed_value(&cv, 7);
+            else if (h == 2) sb_rgbw_conversion_use_min_subtraction(&cv);
+            else sb_rgbw_conversion_turn_off(&cv);
+            sb_rgbw_conversion_use_color_temperature(&cv, t2);
+            if (!sb_rgbw_color_equals(sb_rgb_color_to_rgbw(c, cv), o2)) hist = false;
+        }
+        out += hist ? " hist-same" : " hist-diff";
         return out;
     }
     if (k == "interp") {
@@ -1331,6 +1346,15 @@ static std::string op_poly(const std::vector<std::string>& w)
         float r = NAN;
         sb_bool_t t = sb_poly_touches(&p, f_of_hex(w[3]), &r);
         return "touches=" + S(t ? 1 : 0) + (t ? ":" + fhex(r) : "");
+    }
+    if (k == "touchend") {
+        // the values the library's own evaluation gives at the two ends of [0,1] are taken in [0,1]
+        sb_poly_t p = poly_of(w[2]);
+        float y0 = sb_poly_eval(&p, 0.0f), y1 = sb_poly_eval(&p, 1.0f);
+        float r0 = NAN, r1 = NAN;
+        sb_bool_t t0 = sb_poly_touches(&p, y0, &r0);
+        sb_bool_t t1 = sb_poly_touches(&p, y1, &r1);
+        return "te=" + S(t0 ? 1 : 0) + ":" + S(t1 ? 1 : 0) + " y=" + fhex(y0) + ":" + fhex(y1) + " r=" + fhex(r0) + ":" + fhex(r1);
     }
     if (k == "extrema") {
         sb_poly_t p = poly_of(w[2]);
